@@ -6,8 +6,20 @@ A_DEV_WF = "A-DEV-WF: device answers have the shape the firmware gives them (spe
 A_FW = "A-FW: the firmware appends chunk payloads per (command, op) in arrival order"
 A_LIB = "A-LIB: library contract table (pyvc/libmodels.py, spec/*.py): struct, json, logging no-op, hid, ledgerblue"
 
+A_DOC = "A-DOC: result-code sets parsed from docs/protocol.md; cause names transcribed by hand (spec/protocol_doc.py)"
+A_FWTABLE = "A-FWTABLE: which status the firmware can produce at which step (THROW sets per auth_*.c file; hand attribution for advance/update)"
+A_BTC = "A-BTC: python-bitcoinlib (absent from the sandbox) used through assumed contracts only"
+A_SEQ = "A-SEQ: requests are dispatched one at a time (socketserver.TCPServer is not a threading mix-in)"
+COMMON = [A_PYSEM, A_SMT, A_DEV_WF, A_LIB]
+TB = ["spec/device.py (exchange contract, A-DEV-WF)"]
+
 PROPS = {
-    "C01": dict(level="proof", assumptions=[A_PYSEM, A_SMT, A_DEV_WF, A_FW, A_LIB],
-                trusted_base=["spec/device.py (exchange contract, A-DEV-WF)"],
+    "C01": dict(level="proof", assumptions=COMMON + [A_FW, A_BTC], trusted_base=TB,
                 explanation="contracts on the real signing path, discharged per function"),
+    "C04": dict(level="proof", assumptions=COMMON + [A_DOC, A_FWTABLE], trusted_base=TB + ["spec/protocol_doc.py", "spec/firmware.py"],
+                explanation="status word is a universally quantified integer at every exchange call site"),
+    "C11": dict(level="proof", assumptions=COMMON + [A_SEQ], trusted_base=TB,
+                explanation="link faults are outcomes of the exchange contract at every call site"),
+    "C13": dict(level="proof", assumptions=COMMON + [A_FW], trusted_base=TB + ["spec/firmware.py"],
+                explanation="reply fields are equated with the answers recorded in the ghost log, selectors from the firmware headers"),
 }
